@@ -56,8 +56,10 @@ func (z *E12) MulBy014(c0, c1, c4 *E2) *E12 {
 	b.MulBy1(c4)
 	d.Add(c1, c4)
 
+	var c0Copy E2 // c0 may point into z.C1, which is overwritten next
+	c0Copy.Set(c0)
 	z.C1.Add(&z.C1, &z.C0)
-	z.C1.MulBy01(c0, &d)
+	z.C1.MulBy01(&c0Copy, &d)
 	z.C1.Sub(&z.C1, &a)
 	z.C1.Sub(&z.C1, &b)
 	z.C0.MulByNonResidue(&b)
@@ -78,8 +80,10 @@ func (z *E12) MulBy01(c0, c1 *E2) *E12 {
 	b.MulByNonResidue(&z.C1)
 	d.SetOne().Add(c1, &d)
 
+	var c0Copy E2 // c0 may point into z.C1, which is overwritten next
+	c0Copy.Set(c0)
 	z.C1.Add(&z.C1, &z.C0)
-	z.C1.MulBy01(c0, &d)
+	z.C1.MulBy01(&c0Copy, &d)
 	z.C1.Sub(&z.C1, &a)
 	z.C1.Sub(&z.C1, &b)
 	z.C0.MulByNonResidue(&b)
